@@ -51,6 +51,12 @@ instance of the same class with the same configuration showed when it was create
 def LaterFresh (first later : α) : Prop := first = later
 def laterFreshB (first later : α) : Bool := decide (first = later)
 
+/-- "… or behaviour": what `write_<p>(v)` does on one instance (through the generated wrapper) is what that
+instance's own datatype says about `v` — not what some other instance's datatype says.  A pair is
+(outcomes of the datatype of the instance's parameter, outcomes of the writes) on the same values. -/
+def WritesOwn (l : List (α × α)) : Prop := ∀ p ∈ l, p.1 = p.2
+def writesOwnB (l : List (α × α)) : Bool := l.all (fun p => decide (p.1 = p.2))
+
 /-- validation behaviour is a function of the exported datainfo: pairs (datainfo, outcomes) -/
 def ValFunctional {β : Type} (l : List (α × β)) : Prop := ∀ a b b', (a, b) ∈ l → (a, b') ∈ l → b = b'
 def valFunctionalB {β : Type} [DecidableEq β] (l : List (α × β)) : Bool :=
